@@ -1,4 +1,5 @@
 """C12 — logistic / Tweedie regression: validation dominates the optimiser; shifted soft-max; decision and probabilities share one score."""
+from . import layout
 from .core import RuleResult
 from .facts import fn_key, fn_loc, fn_file, walk, strip, peel_refs, pat_bindings, Render
 from .sym import Tracer, Term, Cmp, k, as_term, walk_terms
@@ -298,5 +299,61 @@ def rule_ratio(ctx):
     return res.finish(1)
 
 
+rule_memorder = layout.make_rule("R-C12-memorder", "raw memory-order buffers (as_slice_memory_order, into_raw_vec, as_ptr) of records and parameters are used by position only behind an is_standard_layout() test", lambda f: f["d"]["krate"] in ("linfa_logistic",) or (f["d"]["krate"] == "linfa_linear" and "glm" in fn_file(f)), "linfa-logistic and the GLM of linfa-linear")
+
+def rule_chain(ctx):
+    """The GLM gradient is the chain rule d cost / d coef = X^T (deviance'(mu) * h'(eta)) with mu = h(eta): it is the
+    gradient of the cost only if `inverse_derivative` is the derivative of `inverse`, for every link.  Both are
+    element-wise maps written as closed expressions; they are read into rational functions over x, exp(.), ln(.),
+    `inverse` is differentiated and the two are compared by cross-multiplication (rules/calc.py).  A clamp or branch in
+    one of the two that the other does not have makes them a function and the derivative of a different function."""
+    from . import calc
+    res = RuleResult("R-C12-chain", "for every link, inverse_derivative is the symbolic derivative of inverse (the gradient's chain rule differentiates the function the cost evaluates)")
+    F = ctx.facts()
+    impls = {}
+    for f in F.all_fns():
+        d = f["d"]
+        if d["krate"] == "linfa_linear" and (d.get("trait") or "").endswith("LinkFn") and d["name"] in ("inverse", "inverse_derivative"):
+            impls.setdefault(d.get("self_adt") or d.get("self_ty"), {})[d["name"]] = f
+    if len(impls) < 3:
+        res.missing_anchor("LinkFn impls with inverse / inverse_derivative (found %d)" % len(impls))
+    for adt in sorted(impls):
+        pair = impls[adt]
+        label = "linfa_linear::%s" % adt.split("::")[-1]
+        res.instance("%s : d/dx inverse == inverse_derivative" % label)
+        if "inverse" not in pair or "inverse_derivative" not in pair:
+            res.undecided("%s : pair-incomplete" % label, "inverse / inverse_derivative not both found", "algorithms/linfa-linear/src/glm/link.rs")
+            continue
+        out = {}
+        for nm in ("inverse", "inverse_derivative"):
+            ck = calc.Calc()
+            try:
+                out[nm] = (ck, ck.read_array_fn(pair[nm]), None)
+            except calc.Unsupported as e:
+                out[nm] = (ck, None, str(e))
+        (c1, f1, e1), (c2, f2, e2) = out["inverse"], out["inverse_derivative"]
+        if e1 or e2:
+            if bool(c1.clamps) != bool(c2.clamps):
+                which = "inverse" if c1.clamps else "inverse_derivative"
+                other = "inverse_derivative" if c1.clamps else "inverse"
+                res.violate("%s : clamp-in-%s-only" % (label, which), "`%s` is clamped or branches (%s) while `%s` is a smooth expression: where the clamp is active the one is not the derivative of the other, so the gradient and the cost belong to different functions" % (which, ", ".join((c1.clamps or c2.clamps)[:2]), other), fn_loc(pair[which]))
+            else:
+                res.undecided("%s : not-read" % label, "the element-wise map could not be read: %s" % (e1 or e2), fn_loc(pair["inverse"]))
+            continue
+        try:
+            df = c1.diff(f1)
+            # atoms of the two readers carry the same names by construction (canonical argument keys)
+            same = df.equals(f2)
+        except calc.Unsupported as e:
+            res.undecided("%s : not-differentiated" % label, str(e), fn_loc(pair["inverse"]))
+            continue
+        if same:
+            res.ok()
+            res.sample({"link": label, "inverse": f1.key()[:120], "derivative": df.key()[:160]})
+        else:
+            res.violate("%s : derivative-mismatch" % label, "d/dx of `inverse` is %s, but `inverse_derivative` computes %s" % (df.key()[:120], f2.key()[:120]), fn_loc(pair["inverse_derivative"]))
+    return res.finish(3)
+
+
 def rules(tier):
-    return [rule_validate, rule_lse, rule_same, rule_dispatch, rule_penalty, rule_ratio]
+    return [rule_validate, rule_lse, rule_same, rule_dispatch, rule_penalty, rule_ratio, rule_memorder, rule_chain]
